@@ -21,6 +21,7 @@ import (
 	"strings"
 	"sync"
 	"time"
+	"unicode/utf8"
 
 	"github.com/prometheus/client_golang/prometheus"
 	"github.com/robustirc/robustirc/internal/config"
@@ -689,6 +690,24 @@ type Replyctx struct {
 	lastmsg *irc.Message
 }
 
+// trimPartialRune removes an incomplete UTF-8 sequence from the end of |b|.
+// irc.Message.Bytes cuts a line after 510 bytes, possibly in the middle of a
+// character. When the message is delivered, the JSON encoder replaces each
+// byte of such a fragment with U+FFFD (3 bytes), so that the client would
+// receive a line that is longer than the limit.
+func trimPartialRune(b []byte) []byte {
+	for n := 1; n < utf8.UTFMax && n <= len(b); n++ {
+		if !utf8.RuneStart(b[len(b)-n]) {
+			continue
+		}
+		if !utf8.FullRune(b[len(b)-n:]) {
+			return b[:len(b)-n]
+		}
+		break
+	}
+	return b
+}
+
 // send converts |msg| into a robust.Message and appends it to |reply|.
 func (i *IRCServer) send(reply *Replyctx, msg *irc.Message) *robust.Message {
 	if reply.lastmsg == msg {
@@ -703,7 +722,7 @@ func (i *IRCServer) send(reply *Replyctx, msg *irc.Message) *robust.Message {
 			Id:    reply.msgid,
 			Reply: reply.replyid,
 		},
-		Data:           string(msg.Bytes()),
+		Data:           string(trimPartialRune(msg.Bytes())),
 		InterestingFor: make(map[uint64]bool),
 	}
 
